@@ -242,8 +242,8 @@ def _collector() -> _Collect:
 
 
 # ----------------------------------------------------------------------------- the rest of the process state
-# The model's state (HState) is: the method-type registry, the namespace/enum registry, the name counter, the
-# constructor's default dict and the executors' attributes.  Everything ELSE the package keeps at module or class level
+# The model's state (HState) is: the method-type registry, the namespace/enum registry, the name counter and the
+# executors' attributes.  Everything ELSE the package keeps at module or class level
 # (the function mapping of cpp_functions, the ranking of arithmetic types in utils, the backends' collection tables,
 # operator tables, mutable default arguments, ... and any table a later version adds) is the "frame": the model says
 # no operation changes it.  It is fingerprinted generically — nothing here names a particular table.
@@ -251,7 +251,6 @@ MODELLED = {
     "func_adl_xAOD.common.cpp_types.g_method_type_dict",
     "func_adl_xAOD.common.cpp_types.g_toplevel_ns",
     "func_adl_xAOD.common.cpp_vars.unique_var_index",
-    "func_adl_xAOD.common.executor.executor.__init__.__defaults__",
 }
 
 
@@ -315,8 +314,7 @@ def frame_snapshot() -> Dict[str, str]:
                     if ck.startswith("__") and ck.endswith("__") and ck != "__init__":
                         continue
                     if isinstance(cv, (types.FunctionType, classmethod, staticmethod)):
-                        if f"{cpath}.__defaults__" not in MODELLED:
-                            defaults(cpath, cv)
+                        defaults(cpath, cv)
                     elif data(cv) and not ck.startswith("_abc_"):
                         snap[cpath] = _fp(cv)
             elif isinstance(v, types.FunctionType):
@@ -477,10 +475,6 @@ class Process:
         raise ValueError(op)
 
     # -- observation of the state
-    def shared_default(self):
-        d = self.executor_cls.__init__.__defaults__
-        return d[0] if d and isinstance(d[0], dict) else None
-
     def observe(self) -> Dict[str, Any]:
         ctyp = self.ctyp
         reg = sorted([t, m, render_info(mi)] for t, ms in ctyp.g_method_type_dict.items() for m, mi in ms.items())
@@ -495,10 +489,8 @@ class Process:
 
         for top, ns in ctyp.g_toplevel_ns.items():
             walk(ns, [top])
-        shared = self.shared_default()
         execs = []
         for b, exe in zip(self.backend_of, self.execs):
-            is_shared = shared is not None and exe._extended_md is shared
             found = {}
             for k, items in exe._found_extended_md.items():
                 if items:
@@ -508,8 +500,9 @@ class Process:
                     "b": b,
                     "job": [[j.name, list(j.script), list(j.depends_on)] for j in exe._job_option_blocks],
                     "inject": [[i.name, inject_body(dataclasses.asdict(i))] for i in exe._inject_blocks],
-                    "shared": is_shared,
-                    "own": [] if is_shared else sorted([k, proto_render(k, v)] for k, v in exe._extended_md.items()),
+                    # the dict the executor consults (its own since fix cfca57a; were it shared with other executors
+                    # again, their registrations would show up here and in the frame below)
+                    "xmd": sorted([k, proto_render(k, v)] for k, v in exe._extended_md.items()),
                     "found": found,
                 }
             )
@@ -517,7 +510,6 @@ class Process:
             "reg": reg,
             "spaces": sorted(spaces),
             "enums": sorted(enums),
-            "shared_xmd": sorted([k, proto_render(k, v)] for k, v in (shared or {}).items()),
             "execs": execs,
             "counter": self.cvars.unique_var_index - self.counter_base,
             # what changed in the rest of the process state since this Process was created: [path, before, now]
